@@ -61,36 +61,38 @@ Fixpoint count_name (n : list byte) (l : list (list byte)) : nat :=
 Fixpoint nodup_names (l : list (list byte)) : bool :=
   match l with [] => true | x :: t => negb (mem_name x t) && nodup_names t end.
 
-Definition spec_ok (c : case) : bool :=
+Definition spec_check (c : case) : option bool :=
   let rs := unrows (c_in c) in
   let out := unrows (c_out c) in
   let dna := rows_dna rs && Z.eqb (c_alphabet c) NUCLEOTIDS && nodup_names (map fst rs) in
   match c_op c with
   | OpRC =>
-      if dna then negb (c_err c) && rows_eqb out (map (fun r => (fst r, rev (map spec_c (snd r)))) rs)
-      else true
-  | OpRCTwice => if dna then negb (c_err c) && rows_eqb out rs else true
+      if dna then Some (negb (c_err c) && rows_eqb out (map (fun r => (fst r, rev (map spec_c (snd r)))) rs))
+      else None
+  | OpRCTwice => if dna then Some (negb (c_err c) && rows_eqb out rs) else None
   | OpRCNames names =>
       if dna then
-        negb (c_err c) &&
+        Some (negb (c_err c) &&
         rows_eqb out (map (fun r => if Nat.odd (count_name (fst r) (map unbs names))
-                                    then (fst r, rev (map spec_c (snd r))) else r) rs)
-      else true
+                                    then (fst r, rev (map spec_c (snd r))) else r) rs))
+      else None
   | OpUpper =>
       if forallb (fun r => all_ascii (snd r)) rs
-      then rows_eqb out (map (fun r => (fst r, map ascii_upper (snd r))) rs) else true
+      then Some (rows_eqb out (map (fun r => (fst r, map ascii_upper (snd r))) rs)) else None
   | OpLower =>
       if forallb (fun r => all_ascii (snd r)) rs
-      then rows_eqb out (map (fun r => (fst r, map ascii_lower (snd r))) rs) else true
+      then Some (rows_eqb out (map (fun r => (fst r, map ascii_lower (snd r))) rs)) else None
   | OpUnalign =>
       if nodup_names (map fst rs)
-      then rows_eqb out (map (fun r => (fst r, filter (fun b => negb (beqb b x2d)) (snd r))) rs) else true
+      then Some (rows_eqb out (map (fun r => (fst r, filter (fun b => negb (beqb b x2d)) (snd r))) rs)) else None
   | OpCompl =>
       match rs, out with
       | (n, s) :: _, (n', s') :: _ =>
-          if all_dna s then negb (c_err c) && bytes_eqb s' (map spec_c s) else true
-      | _, _ => true
+          if all_dna s then Some (negb (c_err c) && bytes_eqb s' (map spec_c s)) else None
+      | _, _ => None
       end
   end.
 
+Definition spec_ok (c : case) : bool := ok_of (spec_check c).
 Definition failing := failing_gen model_ok spec_ok.
+Definition count_judged := count_judged_gen spec_check.
